@@ -206,7 +206,7 @@ func check(c Case) (out ev.Outcome) {
 		if p == "" {
 			p, st = l2.Panic, l2.Stack
 		}
-		if id, ok := ev.KnownOpen("spec_marshal_unescaped_key"); ok && strings.Contains(p, "spec.OrderSchemaItems") && KeyNeedsEscape(schemaRaw) && grp["ref"] {
+		if id, ok := ev.KnownOpen("spec_marshal_unescaped_key"); ok && strings.Contains(p, "spec.OrderSchemaItems") && gen.KeyNeedsEscape(schemaRaw) && grp["ref"] {
 			out.Known = append(out.Known, id)
 			return out
 		}
@@ -251,36 +251,6 @@ func check(c Case) (out ev.Outcome) {
 		}
 	}
 	return failWith(out, "library says valid=%v, draft 4 says valid=%v; library errors: %q", l1.Valid, strict, l1.Errors)
-}
-
-// KeyNeedsEscape tells whether some properties / patternProperties key of the
-// schema contains a character that JSON must escape (go-openapi/spec v0.21.0
-// writes such keys verbatim when it re-marshals a schema during $ref expansion).
-func KeyNeedsEscape(v any) bool {
-	switch x := v.(type) {
-	case map[string]any:
-		for k, w := range x {
-			if k == "properties" || k == "patternProperties" {
-				if m, ok := w.(map[string]any); ok {
-					for name := range m {
-						if strings.ContainsAny(name, "\\\"") || strings.IndexFunc(name, func(r rune) bool { return r < 0x20 }) >= 0 {
-							return true
-						}
-					}
-				}
-			}
-			if KeyNeedsEscape(w) {
-				return true
-			}
-		}
-	case []any:
-		for _, w := range x {
-			if KeyNeedsEscape(w) {
-				return true
-			}
-		}
-	}
-	return false
 }
 
 func bitsSet(m int) int {
